@@ -56,6 +56,83 @@ CHECKS['C13'] = dict(
          'observable of the same chain and of the same chain name with another length in the same process.',
     note='The definition of the resampled means is recomputed independently; import tolerance scales with cond of the projector.')
 
+CHECKS['C06'] = dict(
+    technique='property-based testing (Hypothesis): validity predicates on generated lists of analysed observables, Pearson reference computed by configuration number, metamorphic permutation, helper identities',
+    level='exploration', design='DESIGN.md 4/C06',
+    text='Lists of 2-8 analysed observables (1-3 ensembles x 1-3 replicas, identical / nested / overlapping / disjoint lists, shared covariance inputs, derived entries, '
+         'per-entry analysis parameters): symmetry, diag = dvalue^2, unit diagonal, bounds, zero blocks, cov(perm) = P cov P^T; single-chain Pearson identity and PSD from '
+         'spec-level fluctuations; J Sigma J^T for external inputs; invert_corr_cov_cholesky, sort_corr, smoothing (trace and eigenvalue rule), error_band = sqrt(g^T C g).',
+    note='Off-diagonal values for multi-replica / multi-ensemble observables are only constrained by the predicates the statement lists.')
+CHECKS['C09'] = dict(
+    technique='property-based testing (Hypothesis): closed-form inverse / antiderivative oracles through RefObs.combine; differential test against scipy.integrate.quad',
+    level='exploration', design='DESIGN.md 4/C09',
+    text='find_root on 10 monotone families (scalar and vector d, d on different ensembles, covariance inputs, aliased inputs): value vs closed-form root, fluctuations vs '
+         '-(df/dd)/(df/dx), equality with the explicit inverse applied with Obs arithmetic; integrate.quad on 15 integrand families with every subset of parameters and limits '
+         'observable (reversed, coinciding, infinite limits): value F(b)-F(a), gradient (int d_p f, -f(a), +f(b)); plain-number calls return scipy\'s tuple.',
+    note='Analytic derivatives hand-written and self-checked; quad tolerance is a multiple of QUADPACK\'s own error estimate.')
+CHECKS['C10'] = dict(
+    technique='property-based testing (Hypothesis): defining matrix identities evaluated to first order in an independent reference domain (vlib/refmat.py over RefObs); independent jackknife recomputation',
+    level='exploration', design='DESIGN.md 4/C10',
+    text='matmul (2-4 factors, real/complex/mixed with plain numbers), inv, cholesky, det, eigh/eigv, eig, pinv, svd on well-conditioned 1x1..4x4 (rectangular) matrices with '
+         'entries on different layouts; identities checked in value, every fluctuation and covariance gradient without using pyerrors arithmetic; jack_matmul / einsum against a '
+         'per-sample numpy jackknife and an explicit O(1/N) bound to the exact product.',
+    note='Complex input only where the library documents it (matmul, inv).')
+CHECKS['C11'] = dict(
+    technique='property-based testing (Hypothesis): round trips through every json transport with attribute-level comparison, jsonschema validation of every emitted document',
+    level='exploration', design='DESIGN.md 4/C11',
+    text='Recursive structures (Obs, list, ndarray 0-3d, Corr N=1-3 with padding / None / prange / tag, nested dicts) on multi-ensemble multi-replica layouts with covariance '
+         'inputs, tags of every JSON type, magnitudes 1e-8..1e8; transports string / file (gz on/off) / Obs.dump / Corr.dump / dict / data frame csv+sqlite / pickle; values, names, '
+         'configuration numbers and their range-vs-list form, fluctuations (1e-14 of sample magnitude), replica means, covariance + gradient, tag, flag and a subsequent gamma_method '
+         'must agree; every document validates against examples/json_schema.json.',
+    note='F-C11-2 and F-C11-5 are recorded findings (excluded classes are counted).')
+CHECKS['C12'] = dict(
+    technique='property-based testing (Hypothesis): export/import round trip with the documented replica-name mapping as oracle',
+    level='exploration', design='DESIGN.md 4/C12',
+    text='Lists of 1-4 observables on subsets of one base layout (differing configuration sets, missing replicas / ensembles, covariance-only members), continuous and integer-valued '
+         'data with exact zeros; dobs via bytes / str / .xml.gz / .xml, pobs files, all separator_insertion modes; central value bitwise, every configuration number, fluctuations '
+         'and replica means to 1e-14 of the sample magnitude, covariance and gradients to 2e-14, subsequent error analysis equal.',
+    note='F-C12-4 (sample exactly equal to the central value is the format\'s not-measured marker) is a recorded finding.')
+CHECKS['C15'] = dict(
+    technique='property-based testing (Hypothesis): per-timeslice documented formulas with analytic gradients through RefObs.combine; independent bracketing root solve for cosh/sinh variants; exact undefined-set comparison',
+    level='exploration', design='DESIGN.md 4/C15',
+    text='Single-valued correlators T=4..24 with arbitrary None patterns, positive / sign-changing / cosh / sinh shaped data, exact zeros; all variants of deriv, second_deriv, m_eff '
+         '(incl. root variants) and plateau (fit / average, range from argument, set_prange or constructor); each output slice must be undefined exactly where a referenced slice is '
+         'undefined or the formula has no real value, otherwise equal the formula as an identity between observables; no exception while one output slice is defined.',
+    note='Slices whose root existence the statement does not decide are labelled unjudged.')
+CHECKS['C16'] = dict(
+    technique='property-based testing (Hypothesis): model matrices with closed-form generalised eigenvectors and exact spectra; eigen-equation residuals; scipy cross-check for prune',
+    level='exploration', design='DESIGN.md 4/C16',
+    text='G(t) = Z^T diag(a_n(t)) Z with N=2-5, T=8-24, t0<=T/3, exact exponentials / crossing tables / random positive matrices, Obs entries with exact mean on 1-2 replicas, '
+         'symmetric and non-symmetric input, undefined slices: eigen-equation for all t>t0, ordering, eigh vs cholesky, Eigenvector sorting consistent over time, Eigenvalue() = exp(-E_n(t-t0)), '
+         'prune keeps the lowest energies, matrix pencil returns the exact energies.',
+    note='Direction / eigenvalue comparisons only where an a-priori rounding bound is below 1e-6.')
+CHECKS['C17'] = dict(
+    technique='property-based testing (Hypothesis): synthetic file sets written by independent format writers (byte-exact against the repository\'s sample files) vs reader output; injected directory-listing orders',
+    level='exploration', design='DESIGN.md 4/C17',
+    text='openQCD rwms 1.4/1.6/2.0, ms.dat flow (energy density, t0/w0, qtop), sfqcd gfms (qtop, coupling), ms5_xsf, sfcf separate / compact / appended, Hadrons hdf5 mesons; 1-3 replicas with '
+         'differing digit counts, 5-40 configurations, arbitrary first configuration and spacing, all selection keywords, sorted / reversed / shuffled listings (os.walk / os.listdir proxied as seen by '
+         'the readers) and distractor files; names, configuration numbers and per-configuration numbers must equal the stored ones after the documented reduction.',
+    note='Writers define the formats as readers and sample files agree on them; F-C17-4 is a recorded finding.')
+CHECKS['C18'] = dict(
+    technique='fault injection by exhaustive enumeration of truncation offsets of generated files; oracle: exception or exact prefix',
+    level='fault_enumeration', design='DESIGN.md 4/C18',
+    text='For every file family of C17 and for json.gz / dobs xml.gz / pobs xml.gz / csv.gz archives: truncate one file at byte offsets (quick: all offsets of header, first and last two records plus a '
+         'sample; thorough: every offset of every file) and require an exception or exactly the observables of the complete records before the cut; archives must always raise.',
+    note='A record whose used numbers are complete although an unused trailing block is cut is accepted.')
+CHECKS['C19'] = dict(
+    technique='property-based testing (Hypothesis): independent value(error) reader in exact rational arithmetic as oracle; equalities for flags, priors and scalar views',
+    level='exploration', design='DESIGN.md 4/C19',
+    text='Values and errors over 30 decades with carry / power-of-ten / tie families, significance 1-6, flags, CObs: the printed string re-read with Fractions recovers value and error within half a '
+         'unit of the last digit, digit counts and shared decimal place, flags affect only the leading character, prior parser and fits with string priors agree exactly, error-free observables print '
+         'the plain value, comparisons / float / is_zero_within_error / Corr.plottable use exactly value and error.',
+    note='is_zero_within_error in the numerically-zero regime (|value| < 1e-10) is documented library behaviour and only judged one-sidedly.')
+CHECKS['C20'] = dict(
+    technique='exhaustive enumeration of the finite tables plus property-based testing (Hypothesis) of special-function derivatives against scipy and RefObs.combine',
+    level='exploration', design='DESIGN.md 4/C20',
+    text='Complete: Clifford algebra / hermiticity / gamma5 for all index pairs, all 16 Grid tags (+ near-miss tags must raise), all tuples of {0..4}^3 and {0..4}^4 against the inversion-count sign '
+         '(tuples outside the domain must raise). Generated: K_n for n=-6..6 and x in (0.05,20) plain and inside composite expressions, 30 re-exported special functions inside their domains.',
+    note='Table parts are exhaustive (EXHAUSTIVE in the module); the special-function part samples.')
+
 PENDING_REASON = 'check under construction in this build phase; not claimed until its quick tier is silent on the unchanged tree'
 
 
